@@ -4,8 +4,10 @@ open MitmVerif Driver
 
 /-
   C39 driver.  F = a small filter AST, C = Nat (content code: typ = c%4 (0 http,1 tcp,2 udp,3 dns),
-  resp = bit 2, err = bit 3, ws = bit 4, marked = bit 5, version = c/64).
-  Paths: pattern 0 → path 0, 1 → 1, 2 → 10+now (a strftime pattern), 3 → 3; paths 3 and 12 cannot be opened.
+  resp = bit 2, err = bit 3, ws = bit 4, marked = bit 5, replayed = bit 6, POST = bit 7, status 404 = bit 8,
+  version = c/512).  14 filter atoms + not/and/or.
+  Clock: now = 4*hour + minute.  Patterns: 0 → path 0, 1 → 1, 3 → 3, 2 = "r%M" → 10+minute,
+  4 = "d%H/x%M" → 200+now, 5 = "h%H" → 300+hour; paths 3, 12 and 301 cannot be opened.
     reset
     hook <name> <f> | edit <f> <c> | tick <t> | done
     update <file> <filt>     file: _ (not passed) | none | a<pat> (append) | w<pat>;  filt: _ | unset | bad | <polish AST, comma separated>
@@ -17,6 +19,7 @@ open MitmVerif.C39
 
 inductive Flt where
   | all | http | tcp | udp | dns | ws | resp | err | marked
+  | noresp | replay | post | c200 | c404
   | not (a : Flt) | and (a b : Flt) | or (a b : Flt)
 
 def bit (c k : Nat) : Bool := (c / k) % 2 == 1
@@ -31,14 +34,20 @@ def eval : Flt → Nat → Bool
   | .resp, c => bit c 4
   | .err, c => bit c 8
   | .marked, c => bit c 32
+  | .noresp, c => (c % 4 == 0 || c % 4 == 3) && !(bit c 4)            -- ~q: HTTP/DNS flow without response
+  | .replay, c => bit c 64                                            -- ~replay
+  | .post, c => c % 4 == 0 && bit c 128                               -- ~m POST (HTTP only)
+  | .c200, c => c % 4 == 0 && bit c 4 && !(bit c 256)                 -- ~c 200
+  | .c404, c => c % 4 == 0 && bit c 4 && bit c 256                    -- ~c 404
   | .not a, c => !(eval a c)
   | .and a b, c => eval a c && eval b c
   | .or a b, c => eval a c || eval b c
 
 def env : Env Flt Nat :=
   { mt := fun g _ c => eval g c, isWs := fun c => bit c 16,
-    fmt := fun pat now => if pat = 2 then 10 + now else pat,
-    openFails := fun p => p = 3 || p = 12 }
+    fmt := fun pat now => if pat = 2 then 10 + now % 4 else if pat = 4 then 200 + now % 16
+                          else if pat = 5 then 300 + (now / 4) % 4 else pat,
+    openFails := fun p => p = 3 || p = 12 || p = 301 }
 
 def parseFlt : Nat → List String → Option (Flt × List String)
   | 0, _ => none
@@ -48,6 +57,8 @@ def parseFlt : Nat → List String → Option (Flt × List String)
     | "all" => some (.all, ts) | "http" => some (.http, ts) | "tcp" => some (.tcp, ts) | "udp" => some (.udp, ts)
     | "dns" => some (.dns, ts) | "ws" => some (.ws, ts) | "resp" => some (.resp, ts) | "err" => some (.err, ts)
     | "marked" => some (.marked, ts)
+    | "noresp" => some (.noresp, ts) | "replay" => some (.replay, ts) | "post" => some (.post, ts)
+    | "c200" => some (.c200, ts) | "c404" => some (.c404, ts)
     | "not" => match parseFlt n ts with
       | some (a, r) => some (.not a, r)
       | none => none
@@ -91,7 +102,7 @@ def recLe (a b : Rec Nat) : Bool := a.flow < b.flow || (a.flow == b.flow && a.co
 def showRecs (l : List (Rec Nat)) : String :=
   ",".intercalate ((l.mergeSort recLe).map fun r => toString r.flow ++ "." ++ toString r.content)
 
-def allPaths : List Path := [0, 1, 3, 10, 11, 12, 13]
+def allPaths : List Path := [0, 1, 3, 10, 11, 12, 13] ++ List.range' 200 16 ++ List.range' 300 4
 
 def isPrefix : List (Rec Nat) → List (Rec Nat) → Bool
   | [], _ => true
